@@ -76,8 +76,9 @@ Section Buffer.
     then collect (Z.to_nat (size h)) h ((head h + (i - first_index h)) mod size h)
     else Some [].
 
-  Definition reset_with_index (s : bstate) (i : Z) : bstate :=
-    let h := buf s in BS (HB (recs h) 0 0 (size h) i flush_every) (kvv s).
+  (* ResetWithIndex; it persists the new index (`save_ok` = outcome of that kv.Save, a failure is only logged) *)
+  Definition reset_with_index (s : bstate) (i : Z) (save_ok : bool) : bstate :=
+    let h := buf s in BS (HB (recs h) 0 0 (size h) i flush_every) (if save_ok then Some i else kvv s).
 
   Definition restart (s : bstate) (cap : Z) (load_ok : bool) : bstate :=
     BS (new_buf cap load_ok (kvv s)) (kvv s).
@@ -85,7 +86,7 @@ Section Buffer.
   Inductive bop :=
   | ORecord (r : A) (save_ok : bool)
   | OFrom (i : Z)
-  | OReset (i : Z)
+  | OReset (i : Z) (save_ok : bool)
   | ONext
   | OFirst
   | ORestart (cap : Z) (load_ok : bool).   (* process restart: a new buffer over the same storage *)
@@ -97,7 +98,7 @@ Section Buffer.
     match o with
     | ORecord r ok => (record s r ok, BUnit)
     | OFrom i => (s, match records_from (buf s) i with Some l => BRecs l | None => BDiverge end)
-    | OReset i => (reset_with_index s i, BUnit)
+    | OReset i ok => (reset_with_index s i ok, BUnit)
     | ONext => (s, BIdx (next_index (buf s)))
     | OFirst => (s, BIdx (first_index (buf s)))
     | ORestart cap ok => let s' := restart s cap ok in (s', BIdx (next_index (buf s')))
@@ -128,7 +129,7 @@ Section Buffer.
         then (AS (a_base a) (a_log a ++ [r]) (a_cap a) flush_every (if ok then Some n1 else a_kv a), BUnit)
         else (AS (a_base a) (a_log a ++ [r]) (a_cap a) (a_flush a - 1) (a_kv a), BUnit)
     | OFrom i => (a, BRecs (a_records_from a i))
-    | OReset i => (AS i [] (a_cap a) flush_every (a_kv a), BUnit)
+    | OReset i ok => (AS i [] (a_cap a) flush_every (if ok then Some i else a_kv a), BUnit)
     | ONext => (a, BIdx (a_next a))
     | OFirst => (a, BIdx (a_first a))
     | ORestart cap ok =>
@@ -274,7 +275,7 @@ Definition apply_region (f : fstate) (r : rinfo) : fstate :=
 
 Definition apply_msg (f : fstate) (m : msg) : fstate :=
   let f1 := if next_index (buf (f_hist f)) =? g_start m then f
-            else FS (f_cache f) (f_saved f) (reset_with_index (f_hist f) (g_start m)) in
+            else FS (f_cache f) (f_saved f) (reset_with_index (f_hist f) (g_start m) true) in
   fold_left apply_region (decode m) f1.
 
 Definition finit (cap : Z) (kv : option Z) : fstate := FS [] [] (BS (new_buf cap true kv) kv).
@@ -434,7 +435,7 @@ Fixpoint mon_buf (a : aspec Z) (clean noreset : bool) (ops : list (bop Z)) (obs 
       | OFirst, BIdx z =>
           if (z =? a_first a)%Z then mon_buf a' clean noreset r br else Some "C16:first-index-wrong"
       | ORecord _ ok, BUnit => mon_buf a' (clean && ok) noreset r br
-      | OReset _, BUnit => mon_buf a' clean false r br
+      | OReset _ ok, BUnit => mon_buf a' (clean && ok) false r br
       | _, _ => Some "C16:history-buffer:unexpected-answer"
       end
   | _, _ => None
